@@ -19,6 +19,7 @@ fn prop_by_id(id: &str, thorough: bool) -> Option<Box<dyn Prop>> {
         "C09" => Box::new(props::c08::ServerProp { kind: props::c08::Kind::C09 }),
         "C10" => Box::new(props::c08::ServerProp { kind: props::c08::Kind::C10 }),
         "C18" => Box::new(props::c08::ServerProp { kind: props::c08::Kind::C18 }),
+        "C20" => Box::new(props::c20::Notified),
         "C17" => Box::new(props::c17::Bounded { production: thorough }),
         _ => return None,
     })
